@@ -4,6 +4,12 @@
    ((y + c + delta)^k = sum_m binom(k,m) delta^(k-m) (y + c)^m under the Gaussian moment functional),
    for every k, i, j and every ring element; [binom] is Pascal's triangle on nat, and [binom_fact]
    ties it to factorials:  binom(n,k) k! (n-k)! = n!  in the field. *)
+(* NOT proved (full-strength statement, for the record): at block level, for C' = C - (dx, dy, dz),
+     entry(mm_block C' [o]) = sum_{m <= o, componentwise} prod_axes binom(o_axis, m_axis) d_axis^(o_axis - m_axis)
+                              * entry(mm_block C [m])
+   i.e. the product of three per-axis binomial sums pushed through the contraction.  What is proved is the
+   per-axis law ([T3_origin_shift], [T1_origin_shift]) from which it follows by linearity of [contracted]
+   (Proofs/CoreSumP.v: contracted_add, contracted_scale); missing: the bookkeeping of the triple sum. *)
 From Coq Require Import List Arith Lia Field.
 From GB Require Import Base.Field Base.FNum Base.Tables Gauss.Moment1D Model.MomentInt
   Proofs.CoreSumP Proofs.CoreBlockP.
